@@ -31,7 +31,7 @@ class C19(PropBase):
     extractors = ["dispatch", "trans"]
     rule = ("histories of 30-200 generated frames of every format (and the first 3000 lines of three recorded files) run through "
             "the real reader under pairs of option sets differing only in -i, -o, -c, -u, -M, -D, -l: dumps must be identical; short histories with back-to-back repeated frames after a silent aircraft under the logging options; pairs "
-            "differing in -O: identical except dist; histories of valid DF4/5/11/17 frames with and without -U (x -R): the nine "
+            "differing in -O: identical except dist; histories of valid DF4/5/11/17 frames (a third of them verbatim repeats of one of the six frames before) with and without -U (x -R): the nine "
             "listed parameters identical. Non-trivial = history in which at least one row has a position or a velocity; distinct by history.")
     assumptions = ["-l: the harness installs the logger once per process before the reader starts, as main() does"]
 
@@ -108,6 +108,12 @@ class C19(PropBase):
         for hi in range(40 if tier == "quick" else 800):
             addrs = rng.sample(range(1, 1 << 24), 2)
             lines = [valid_frame(rng, rng.choice(addrs)) for _ in range(rng.randrange(10, 120))]
+            # aircraft repeat themselves: a parked or slow aircraft sends the very same position half, the same identification
+            # and the same altitude again and again, with its other frames in between - a third of the frames are verbatim
+            # copies of an earlier frame of the history
+            for i in range(3, len(lines)):
+                if rng.random() < 0.33:
+                    lines[i] = lines[rng.randrange(max(0, i - 6), i)]
             ops = []
             chunk = rng.choice([1, 2, 7])
             gaps = [rng.choice([1500, 1500, 4000, 9500, 10500, 12000]) for _ in range(len(lines))]     # around the 10 s pairing window too
